@@ -6,6 +6,12 @@ BASE = "cd /repo && cargo test --workspace --no-fail-fast --offline"
 T_VERUS = "Verus requires/ensures/invariant contracts injected into functions extracted from /repo each run, discharged by Z3"
 TRUST = "Trusted: Verus/Z3; extraction rules R0-R12 (DESIGN 3.1); hand-written assumed contracts on dependencies (prelude/*.rs: melstructs, novasmt, tmelcrypt, stdcode, num, melpow, imbl, rayon/iterators as eager sequences); hash collision-freedom and serialisation injectivity as axioms. "
 CLAIMED = {
+ "C01": dict(level="proof", design="DESIGN.md 4/C01",
+   text="Per-operation conservation obligations: check_tx_coins_balanced <=> the balance predicate; check_tx_validity => balanced over the per-denomination input sums; lemma_tx_conserves: for every accepted non-faucet transaction and denomination (outside its own new token / a DoscMint's ERG) outputs + fee = inputs; create_next_state: exact coin-set transition and exact fee-pool/tips accounting; proposer reward moves fee_pool>>16 + tips into one coin exactly; DoscMint ERG bounded by the computed reward; swap settlement pays floor pro-rata shares of what the pool paid out; request selection only settles genuine requests.",
+   note=TRUST + "The induction from these per-operation facts to the whole-history supply statement (sums over the coin map) is the paper argument of DESIGN 4/C01-8, not mechanised; deposit/withdraw settlement, pegging and TIP-909 subsidy arithmetic not yet under contract; mainnet grandfathered faucet is issuance outside the property's list (DESIGN 4/C01).", technique=T_VERUS),
+ "C03": dict(level="proof", design="DESIGN.md 4/C03",
+   text="Order independence proved over the contracts: lemma_batch_perm (the exact coin-set transition specified by create_next_state's postcondition is invariant under reordering the batch), lemma_fees_perm and lemma_fsum_perm (fee totals, vote sums over hash-map/hash-set enumerations), votes/confirm/seal results specified through order-independent sums; apply_block proved for an arbitrary enumeration of the block's unordered transaction set.",
+   note=TRUST + "Thread schedules are not modelled: rayon adapters carry sequential-semantics contracts (A-RAYON); acceptance-side order independence (load_relevant_coins / parallel validation) pending with apply_tx_batch_impl.", technique=T_VERUS + " (lemmas over the contracts)"),
  "C02": dict(level="proof", design="DESIGN.md 4/C02",
    text="create_next_state proved to produce exactly (coins + kept outputs + faucet markers - inputs) with the recorded data, whole-view postcondition (batch_coins), over the raw-SMT-verified CoinMapping insert/remove/get contracts; output_coins_from_tx proved to create exactly the non-destroyed outputs with NewCustom->Custom(hash) and the block height; check_tx_validity proves existence/balance/approval/unlock for accepted transactions.",
    note=TRUST + "Not yet under contract: load_relevant_coins / extract_input_coins / apply_tx_batch_impl composition (acceptance conditions of the whole batch); rejection-is-no-op follows from apply_tx_batch taking &self and assigning only on Ok (not yet a discharged obligation).", technique=T_VERUS),
@@ -42,6 +48,9 @@ CLAIMED = {
  "C15": dict(level="proof", design="DESIGN.md 4/C15",
    text="The three request-selection functions proved to return exactly the block's transactions that are genuine requests (right kind, unspent outputs, canonically spelled existing pool, non-zero amounts, live pool for swaps); request_pool_key proved to accept only canonical spellings; multiply_frac proved = min(floor(x*n/d), 2^128-1). Four genuine defects found by these obligations were repaired (fix: commits).",
    note=TRUST + "Settlement loops (pro-rata division, pool movement) and price properties pending; PoolState arithmetic assumed (A-STRUCTS).", technique=T_VERUS),
+ "C16": dict(level="proof", design="DESIGN.md 4/C16",
+   text="create_builtins proved to leave MEL/SYM, MEL/ERG (and ERG/SYM under TIP-902) present with 10^9/10^9/10^9 when absent and untouched otherwise; preseal_melmint proved to keep the built-in pools present and live through its phases and the four pool-count assertions discharged; seal/apply_block discharge their assertions; swap settlement keeps a pool live.",
+   note=TRUST + "deposit/withdraw/pegging phases enter through assumed phase contracts; liquidity backing (tokens <= pool liquidity over histories) is the inductive argument of DESIGN 4/C16-2, not mechanised.", technique=T_VERUS),
  "C17": dict(level="proof", design="DESIGN.md 4/C17",
    text="move_action_fee_multiplier proved for every multiplier 0..2^128 and every delta: exact step trunc(max(m/128,2)*d/128) on [2, 2^70], clamped outside, |step| <= max(m/128,2), no overflow, frame. Repaired (fix: commit) after the overflow/underflow obligations failed.",
    note=TRUST + "seal(None) frame pending in the seal unit.", technique=T_VERUS),
